@@ -223,8 +223,9 @@ def gen_path(r, regions, opts):
             else:
                 ops.append(("at", "ExcludeRegion", r.choice(["on", "enable"])))
             enabled = not enabled
-            if r.random() < 0.3:
-                ops.append(("at", r.choice(["ExcludeRegion", "Other"]), r.choice(["bogus", "", "offf"])))
+            if r.random() < 0.4:
+                ops.append(("at", r.choice(["ExcludeRegion", "ExcludeRegion", "Other", "Region"]),
+                            r.choice(["bogus", "", "offf", "turn off", "not on", "x off", "go on", "stop"])))
         elif k < 0.96 and opts.get("arcs") and (absmode or opts.get("rel_arcs")) \
                 and (mm or opts.get("inch_arcs")):
             # arc about a centre; keep it on a grid so that it is exact
@@ -293,6 +294,14 @@ def random_cfg(r, regions=None):
         "ext": random_ext(r),
         "regions": list(DEFAULT_REGIONS if regions is None else regions),
     }
+    k = r.random()
+    if k < 0.12:
+        # custom patterns without an anchor: `parameterPattern.match` still anchors them at the start
+        cfg["at"] = [("ExcludeRegion", "off", "disable_exclusion"), ("ExcludeRegion", "on", "enable_exclusion")]
+    elif k < 0.2:
+        cfg["at"] = [("ExcludeRegion", "[ ]*(stop|off)(\\s|$)", "disable_exclusion"),
+                     ("ExcludeRegion", "[Oo]n", "enable_exclusion"),
+                     ("Region", None, "disable_exclusion")]
     return cfg
 
 
